@@ -658,6 +658,12 @@ def world_description(tier):
             f"operations); closure reported per object; environment actions {ENV}")
 
 
+def bound_description(tier):
+    return (f"all call histories up to length {DEPTH[tier]} ({DEPTH[tier] - 1} for transcripts/CDS) are enumerated completely; the bound IS hit: "
+            "counter frontier_states_at_depth_bound = number of distinct states first reached at the bound whose successors were "
+            "not expanded; counter objects_closed_before_depth_bound = objects whose state graph closed below the bound")
+
+
 def shards(tier, seed):
     cat = catalogue(tier)
     out = []
